@@ -155,6 +155,10 @@ def main() -> int:
                 continue
             if k2 not in keys:
                 keys.append(k2)
+    # single functions of other properties that this property's statement depends on
+    for k2 in cfg.get("extra_keys", []):
+        if k2 not in keys:
+            keys.append(k2)
     if a.only:
         keys = [k for k in keys if k in a.only.split(",")]
     def _for(p):
